@@ -1,0 +1,161 @@
+//go:build verif
+
+// Verification hooks (package router) for properties C11 (local delivery port) and C17 (socket
+// buffer sizes). Additive only; compiled only with -tags verif. Nothing here changes behaviour:
+// the functions expose unexported state read-only and call the real resolveLocalDst.
+
+package router
+
+import (
+	"errors"
+	"fmt"
+	"net"
+	"net/netip"
+	"sort"
+
+	"github.com/scionproto/scion/pkg/slayers"
+)
+
+// VerifCfgSetConnOpener installs opener in the named, already instantiated underlay provider of
+// the connector's data plane (as the unit tests do through export_test.go). It reports whether
+// the provider exists.
+func VerifCfgSetConnOpener(c *Connector, underlay string, opener any) bool {
+	u, ok := c.DataPlane.underlays[underlay]
+	if !ok {
+		return false
+	}
+	u.SetConnOpener(opener)
+	return true
+}
+
+// VerifCfgUnderlayNames lists the instantiated underlay providers (sorted).
+func VerifCfgUnderlayNames(c *Connector) []string {
+	var ns []string
+	for n := range c.DataPlane.underlays {
+		ns = append(ns, n)
+	}
+	sort.Strings(ns)
+	return ns
+}
+
+// VerifCfgUnderlay returns the named provider (nil if not instantiated).
+func VerifCfgUnderlay(c *Connector, underlay string) UnderlayProvider {
+	return c.DataPlane.underlays[underlay]
+}
+
+// VerifCfgDPRange returns dataPlane.dispatchedPortStart/End.
+func VerifCfgDPRange(c *Connector) (uint16, uint16) {
+	return c.DataPlane.dispatchedPortStart, c.DataPlane.dispatchedPortEnd
+}
+
+// VerifCfgRunConfig returns the data plane's RunConfig.
+func VerifCfgRunConfig(c *Connector) RunConfig {
+	return c.DataPlane.RunConfig
+}
+
+// VerifCfgLink returns the link registered for ifID (nil if none); 0 is the internal link.
+func VerifCfgLink(c *Connector, ifID uint16) Link {
+	return c.DataPlane.interfaces[ifID]
+}
+
+// Resolution outcome classes, by sentinel (never by message text).
+const (
+	VerifCfgOK          = "ok"
+	VerifCfgErrDecode   = "e:decode"   // the packet does not decode (harness error)
+	VerifCfgErrNoLink   = "e:nolink"   // no internal link configured
+	VerifCfgErrDstAddr  = "e:dstaddr"  // errInvalidDstAddr
+	VerifCfgErrNoSVC    = "e:nosvc"    // ErrNoSVCBackend
+	VerifCfgErrV4Mapped = "e:v4mapped" // ErrUnsupportedV4MappedV6Address
+	VerifCfgErrUnspec   = "e:unspec"   // ErrUnsupportedUnspecifiedAddress
+	VerifCfgErrPort     = "e:port"     // any error of dstScionPort/getDstPortSCMP (packet dropped)
+)
+
+// VerifCfgResolve decodes raw exactly as scionPacketProcessor.processPkt does (SCION header, then
+// the hop-by-hop and end-to-end extension skippers), then calls the real resolveLocalDst with the
+// internal link as egress, and returns the underlay destination written into the packet.
+func VerifCfgResolve(c *Connector, raw []byte) (string, netip.AddrPort) {
+	d := &c.DataPlane
+	if d.interfaces[0] == nil {
+		return VerifCfgErrNoLink, netip.AddrPort{}
+	}
+	var (
+		scionLayer slayers.SCION
+		hbhLayer   slayers.HopByHopExtnSkipper
+		e2eLayer   slayers.EndToEndExtnSkipper
+	)
+	buf := append([]byte(nil), raw...)
+	lastLayer, err := decodeLayers(buf, &scionLayer, &hbhLayer, &e2eLayer)
+	if err != nil {
+		return VerifCfgErrDecode, netip.AddrPort{}
+	}
+	pkt := &Packet{RawPacket: buf, egress: 0}
+	err = d.resolveLocalDst(pkt, scionLayer, lastLayer)
+	switch {
+	case err == nil:
+	case errors.Is(err, errInvalidDstAddr):
+		return VerifCfgErrDstAddr, netip.AddrPort{}
+	case errors.Is(err, ErrNoSVCBackend):
+		return VerifCfgErrNoSVC, netip.AddrPort{}
+	case errors.Is(err, ErrUnsupportedV4MappedV6Address):
+		return VerifCfgErrV4Mapped, netip.AddrPort{}
+	case errors.Is(err, ErrUnsupportedUnspecifiedAddress):
+		return VerifCfgErrUnspec, netip.AddrPort{}
+	default:
+		return VerifCfgErrPort, netip.AddrPort{}
+	}
+	if pkt.RemoteAddr == nil {
+		return "e:noaddr", netip.AddrPort{}
+	}
+	ua := (*net.UDPAddr)(pkt.RemoteAddr)
+	ip, ok := netip.AddrFromSlice(ua.IP)
+	if !ok {
+		return "e:badaddr", netip.AddrPort{}
+	}
+	return VerifCfgOK, netip.AddrPortFrom(ip, uint16(ua.Port))
+}
+
+// VerifCfgProcess runs raw through the real fast path (scionPacketProcessor.processPkt) as a
+// packet received on the link registered for ingress, and reports what happened to it as far as
+// local delivery is concerned: forwarded over the internal link to the returned underlay address,
+// or the class of the refusal.
+func VerifCfgProcess(c *Connector, raw []byte, ingress uint16) (string, netip.AddrPort) {
+	d := &c.DataPlane
+	if d.interfaces[0] == nil || d.interfaces[ingress] == nil || d.macFactory == nil {
+		return VerifCfgErrNoLink, netip.AddrPort{}
+	}
+	pktBuf := &[bufSize]byte{}
+	pkt := &Packet{buffer: pktBuf, RawPacket: pktBuf[minHeadroom:], Link: d.interfaces[ingress]}
+	pkt.RawPacket = pkt.RawPacket[:len(raw)]
+	copy(pkt.RawPacket, raw)
+	proc := newPacketProcessor(d)
+	switch disp := proc.processPkt(pkt); disp {
+	case pForward:
+		if pkt.egress != 0 {
+			return "e:notlocal", netip.AddrPort{}
+		}
+		if pkt.RemoteAddr == nil {
+			return "e:noaddr", netip.AddrPort{}
+		}
+		ua := (*net.UDPAddr)(pkt.RemoteAddr)
+		ip, ok := netip.AddrFromSlice(ua.IP)
+		if !ok {
+			return "e:badaddr", netip.AddrPort{}
+		}
+		return VerifCfgOK, netip.AddrPortFrom(ip, uint16(ua.Port))
+	case pSlowPath:
+		r := pkt.slowPathRequest
+		switch {
+		case r.spType == slowPathType(slayers.SCMPTypeDestinationUnreachable) &&
+			r.code == slayers.SCMPCodeNoRoute:
+			return VerifCfgErrNoSVC, netip.AddrPort{}
+		case r.spType == slowPathType(slayers.SCMPTypeParameterProblem) &&
+			r.code == slayers.SCMPCodeInvalidDestinationAddress:
+			return "e:dstparam", netip.AddrPort{}
+		}
+		return fmt.Sprintf("e:slow:%d:%d", r.spType, r.code), netip.AddrPort{}
+	case pDiscard:
+		return VerifCfgErrPort, netip.AddrPort{}
+	default:
+		return fmt.Sprintf("e:disp:%d", disp), netip.AddrPort{}
+	}
+}
